@@ -29,7 +29,7 @@ def comp(kind, id=0, cr="-", srv="-", src="-", v=None, cm=""):
 
 
 def building(r, integer=False, aux=False, max_steps=12):
-    n = r.choice([1, 2, 3, 4, 12]) if max_steps >= 12 else r.randint(1, max_steps)
+    n = r.choice([1, 2, 3, 4, 5, 12, 13, 24]) if max_steps >= 12 else r.randint(1, max_steps)
     comps = []
     nsys = r.randint(1, 4)
     big = 40 if integer else 5000.0
